@@ -176,9 +176,18 @@ impl Trace {
     pub fn outcome_hash(&self) -> u64 {
         // Runs of consecutive Rule/Feature `Finished` events come out of a
         // `HashMap::drain()` (fail-fast epilogue): order-insensitive.
+        self.outcome_hash_ignoring_log_text()
+    }
+    /// Like `outcome_hash()`, with the text of `Log` events (timestamps) left out.
+    pub fn outcome_hash_ignoring_log_text(&self) -> u64 {
         let mut acc = 0u64;
         for e in &self.events {
-            acc = fold_event(acc, &e.ev);
+            match &e.ev {
+                Ev::Sc { f, r, s, ptrs, retries, ev: crate::canon::ScEv::Log(_) } => {
+                    acc = roll(acc, (f, r, s, ptrs, retries, "log"));
+                }
+                ev => acc = fold_event(acc, ev),
+            }
         }
         roll(acc, self.ended)
     }
@@ -243,17 +252,18 @@ pub fn execute(
             break;
         }
         let woken = flag.0.load(Ordering::SeqCst);
-        let quiescent = !woken || noprog >= K_NOPROGRESS;
+        let quiescent = !woken || noprog >= cfg.k_noprogress;
         if quiescent {
             tr.quiescent_at.push(tr.events.len());
         }
 
         let mut opts: Vec<Opt> = Vec::new();
         let releases = || -> Vec<Opt> {
-            hs::armed_gates()
-                .into_iter()
-                .map(|g| Opt::Release(g, hs::gate_label(g)))
-                .collect()
+            // canonical order (by label): independent of the order in which gates got armed
+            let mut v: Vec<(String, usize)> =
+                hs::armed_gates().into_iter().map(|g| (hs::gate_label(g), g)).collect();
+            v.sort();
+            v.into_iter().map(|(l, g)| Opt::Release(g, l)).collect()
         };
         let advances = |budget: usize| -> Vec<Opt> {
             let mut v = Vec::new();
@@ -457,6 +467,7 @@ pub struct ExploreStats {
     pub outcomes: HashSet<u64>,
     pub max_decisions: usize,
     pub capped: bool,
+    pub divergences: usize,
 }
 
 /// Stateless DFS with an optional deviation bound.
@@ -486,6 +497,7 @@ pub fn explore(
             break;
         }
         if tr.anomalies.iter().any(|a| matches!(a, Anomaly::PrefixDivergence(_))) {
+            stats.divergences += 1;
             continue;
         }
         let sched = tr.schedule();
